@@ -1123,6 +1123,8 @@ fn os_programs(tmp: &str) -> Vec<(String, String)> {
             }
         }
     }
+    // importing the primitive module directly, before anything loaded std.fs.prim
+    v.push(("std.path.prim.import".into(), "import! std.path.prim".into()));
     for p in ["", "/nonexistent/c06", tmp, "/verif/.cache"] {
         v.push(("std.fs.prim.read_dir".into(), format!("let f = import! std.fs.prim in f.read_dir {}", str_lit(p))));
         v.push(("std.fs.read_dir".into(), format!("let f = import! std.fs in f.read_dir {}", str_lit(p))));
